@@ -324,7 +324,7 @@ pub fn run_sql_check(ctx: &Ctx, which: Which) -> Report {
                             check_c07(&p.gq, c, &orig, db, "interval-size", known, r);
                             // the same with tables declared at exactly the instance's sizes (quick: for the
                             // hand-written list and the depth-1 terms only)
-                            if tier == Tier::Quick && !p.gq.subqueries.is_empty() {
+                            if tier == Tier::Quick && !p.gq.subqueries.is_empty() && !p.gq.tags.contains(&"quick-depth-3") {
                                 continue;
                             }
                             let sizes: Vec<usize> = world.tables.iter().map(|t| db.get(t.name).map_or(0, |x| x.len())).collect::<Vec<usize>>();
